@@ -673,7 +673,8 @@ inductive Op where
   with both signatures checked (`host.go:171-198`) -/
   | form (cid : Nat) (c : Contract)
   /-- `RenewV2Contract` at the end of renew/refresh: the new contract copies size and root
-  (`rhp4.RenewContract`, `rhp.go:928-940`), the host copies the roots (`host.go:203-243`) -/
+  (`rhp4.RenewContract`, `RefreshContract*Rollover`, `rhp.go:928-1075`), the host copies the roots
+  (`host.go:203-243`) -/
   | renew (cid newcid : Nat) (c : Contract)
   /-- a sector reaches the store outside the RPCs (the harness stores it directly) -/
   | sector (root : Nat)
@@ -695,7 +696,9 @@ def renewOk (h : Host) (cid newcid : Nat) (c : Contract) : Bool :=
       verify cs.c.body.renterKey (.contract c.body) c.renterSig &&
       verify cs.c.body.hostKey (.contract c.body) c.hostSig &&
       c.body.renterKey == cs.c.body.renterKey && c.body.hostKey == cs.c.body.hostKey &&
-      c.body.filesize == cs.c.body.filesize && c.body.capacity == cs.c.body.filesize &&
+      -- renew: `NewContract.Capacity = fc.Filesize` (`rhp.go:936`); refresh keeps the capacity (`rhp.go:1001,1063`)
+      c.body.filesize == cs.c.body.filesize &&
+      (c.body.capacity == cs.c.body.filesize || c.body.capacity == cs.c.body.capacity) &&
       c.body.root == cs.c.body.root && c.body.rev == 0 &&
       Decidable.decide (c.body.missedHost ≤ c.body.hostOut) && Decidable.decide (c.body.proofHeight < c.body.expHeight)
 
